@@ -6,10 +6,10 @@ against Trace_Crash.tla."""
 import json, os, re, subprocess
 import vf
 
-CFG = """CONSTANTS G = {%s}  MaxCalls = %d  WriteThrough = TRUE  D = {%s}  Offsets = "append"
+CFG = """CONSTANTS G = {%s}  MaxCalls = %d  WriteThrough = TRUE  D = {%s}  Offsets = "append"  PoisonEvery = %d
 SPECIFICATION Spec
 VIEW View
-INVARIANTS AckedSurvive NoUserBuffer Emit
+INVARIANTS AckedSurvive NoUserBuffer NeverAckedUnencodable Emit
 CHECK_DEADLOCK FALSE
 """
 
@@ -85,13 +85,14 @@ def classify(fd, rest):
 def run(ctx):
     thorough = ctx.tier == "thorough"
     rep = vf.Report(ctx)
-    shapes = [("1, 2", 3, "1"), ("1", 6, "1"), ("1, 2, 3, 4", 2, "1"), ("1, 2", 2, "1, 2"), ("1", 4, "1, 2")]
+    # goroutines, calls each, descriptors, every how-manieth call cannot be encoded (0: none)
+    shapes = [("1, 2", 3, "1", 0), ("1", 6, "1", 4), ("1, 2, 3, 4", 2, "1", 0), ("1, 2", 2, "1, 2", 0), ("1", 4, "1, 2", 4)]
     if thorough:
-        shapes += [("1, 2, 3", 4, "1"), ("1", 25, "1"), ("1, 2, 3, 4", 6, "1"), ("1, 2, 3", 3, "1, 2")]
+        shapes += [("1, 2, 3", 4, "1", 4), ("1", 25, "1", 0), ("1, 2, 3, 4", 6, "1", 0), ("1, 2, 3", 3, "1, 2", 0)]
     cases = []
-    for i, (g, n, d) in enumerate(shapes):
+    for i, (g, n, d, u) in enumerate(shapes):
         name = "MC_CrashPath_%d" % i
-        open(os.path.join(ctx.specdir, name + ".cfg"), "w").write(CFG % (g, n, d))
+        open(os.path.join(ctx.specdir, name + ".cfg"), "w").write(CFG % (g, n, d, u))
         r = ctx.tlc("CrashPath", name, timeout=1500, workers=4)
         seen = set()
         for e in r.emitted:
